@@ -1,7 +1,7 @@
 (* C05 TTL cache: the property, clause by clause, over all keys, values, ttls, option combinations, clock readings,
    sizes and histories.  This file contains statements closed by `exact` only. *)
 From Coq Require Import ZArith List Bool.
-Require Import TTL TTLView C05_Hist C05_Frame C05_Ttl C05_Mon C05_Rds C05_RdsAgree C05_Check C05_Refuted.
+Require Import TTL TTLView C05_Hist C05_Frame C05_Ttl C05_Mon C05_Hammer C05_Rds C05_RdsAgree C05_Check C05_Refuted.
 Import ListNotations.
 Open Scope Z_scope.
 
@@ -116,6 +116,16 @@ Theorem c05_lru_guarantee : forall sz dt h m k e, dom_all dt (trace_of (empty sz
   exists n, find_k k (l (fst (run (empty sz dt) h))) = Some n /\ val n = iv e /\ In (dl n) (ids e).
 Proof. exact lru_guarantee. Qed.
 
+(* callers racing on ONE key of a fresh cache: whatever they did and in whatever order the mutex served them, after a
+   Remove of that key the cache is the empty cache, and reports from then on what it reports after Remove alone *)
+Theorem c05_hammer_collapses : forall sz dt k h now, (forall s, In s h -> on_key k (snd s)) ->
+  fst (run (empty sz dt) (h ++ [(now, ORemove k)])) = empty sz dt.
+Proof. exact hammer_collapses. Qed.
+Theorem c05_hammer_tail : forall sz dt k h now rest, (forall s, In s h -> on_key k (snd s)) ->
+  exists pre, snd (run (empty sz dt) (h ++ (now, ORemove k) :: rest)) = pre ++ snd (run (empty sz dt) ((now, ORemove k) :: rest))
+              /\ length pre = length h.
+Proof. exact hammer_tail. Qed.
+
 (* redis agreement: on every restricted history (positive ttls that fit, keep-ttl on live keys only, no clock reading on
    the deadline of the touched key, at most `size` distinct keys) the redis-backed model reports the same hit / miss,
    value and already-exists outcome at every step *)
@@ -187,6 +197,8 @@ Print Assumptions c05_clear_gone.
 Print Assumptions c05_bound_all_histories.
 Print Assumptions c05_retrievable_bound.
 Print Assumptions c05_lru_guarantee.
+Print Assumptions c05_hammer_collapses.
+Print Assumptions c05_hammer_tail.
 Print Assumptions c05_rds_agrees.
 Print Assumptions c05_deadline_in_domain.
 Print Assumptions c05_prefix_set_refuted.
